@@ -779,7 +779,12 @@ void ExpressionBuilder::expr_proba_compare(Constants::kind_t pathType1, Constant
     auto& runs2 = fragments[1];
     auto& predicate2 = fragments[0];
 
-    if (runs1.get_value() != -1 || runs2.get_value() != -1)
+    // the grammar pushes the constant -1 when no number of runs is given; after a syntax error in
+    // one of the predicates something else may be in that place
+    auto no_runs = [](const expression_t& e) {
+        return !e.empty() && e.get_kind() == CONSTANT && e.get_type().is_integer() && e.get_value() == -1;
+    };
+    if (!no_runs(runs1) || !no_runs(runs2))
         throw TypeException("The number of runs is not supported in probability comparison");
 
     auto args = std::vector<expression_t>{boundTypeOrBoundedExpr1, bound1, make_constant(pathType1), predicate1,
